@@ -11,6 +11,7 @@ package main
 
 import (
 	"context"
+	"encoding/json"
 	"fmt"
 	"math/rand/v2"
 	"sort"
@@ -113,7 +114,20 @@ func runComposerCase(c sink, name string, r *rand.Rand, st stats) {
 		tpls[j] = t
 		cts = append(cts, v1.ComposedTemplate{Name: ptrTo(t.name), Base: runtime.RawExtension{Raw: []byte(kit.JSON(base))}, Patches: ps})
 	}
+	// pad the shared PatchSet with further optional no-op patches (1..5 patches in total) and take
+	// the revision through JSON, as it arrives from the API server: decoded slices have spare
+	// capacity, which is what makes slice-aliasing bugs between templates observable
+	for extra := r.IntN(4); extra > 0; extra-- {
+		sets[0].Patches = append(sets[0].Patches, v1.Patch{Type: v1.PatchTypeFromCompositeFieldPath, FromFieldPath: ptrTo(fmt.Sprintf("spec.params.absent%d", extra)),
+			ToFieldPath: ptrTo(fmt.Sprintf("spec.forProvider.absent%d", extra)), Policy: &v1.PatchPolicy{FromFieldPath: &optional}})
+	}
 	rev := &v1.CompositionRevision{Spec: v1.CompositionRevisionSpec{PatchSets: sets, Resources: cts}}
+	if b, err := json.Marshal(rev); err == nil {
+		decoded := &v1.CompositionRevision{}
+		if err := json.Unmarshal(b, decoded); err == nil {
+			rev = decoded
+		}
+	}
 
 	// the XR
 	labelMissing := chance(r, 0.06)
